@@ -8,7 +8,14 @@ property is about tracing): simulate along every path of the probability tree, a
 partial choice map (every subset of the visited addresses).  Oracle: the trace's choice map contains
 exactly the visited addresses (tuple addresses nested hierarchically, nothing else); a duplicated
 address raises AddressReuse; assess succeeds (== reference) iff every visited address has a value
-and raises MissingAddress otherwise."""
+and raises MissingAddress otherwise.
+
+Call sites whose callee is a COMBINATOR (added after seeded change C22-c22c-sub3, which restricted the
+MissingAddress check to bare distributions): y ~ flip; v ~ <combinator over a bare distribution>(...);
+z ~ flip for every combinator with something always visited under v; assess with the values of every
+subset of the three call sites.  Oracle: MissingAddress (no other exception, no result) whenever a
+whole call site is absent; the reference score for the complete map (combinators without an assess
+finding only)."""
 
 from __future__ import annotations
 
@@ -186,6 +193,59 @@ def _run(node, addrs, nested, tier, seed):
     return run
 
 
+CALL_SITE_KINDS = ("vmap", "repeat", "scan", "switch", "mask", "dimap", "or_else", "mix", "iterate", "iterate_final", "accumulate", "reduce")
+SCORE_KINDS = ("vmap", "repeat", "scan", "dimap", "iterate", "iterate_final", "accumulate", "reduce")
+
+
+def call_site_programs():
+    return [(grammar.leaf_then_vec(raw), raw) for raw in grammar.raw_over(Flip()) if raw.kind in CALL_SITE_KINDS]
+
+
+def _run_call_site(node, raw, tier, seed):
+    def run(ctx):
+        args = node.arg_alphabet()[0]  # theta = 0.3: the mask flag (theta < 0.5) is True, so v is visited
+        jargs = to_jax_args(args)
+        gf = node.gf()
+        enum = grammar.ref_enumerate(node, args)
+        order = ["y", "v", "z"]
+        for asg, ret, R in enum[: (2 if tier == "quick" else 6)]:
+            visited = list(R.visited())
+            tops = {p_[0] for p_ in visited}
+            if tops != set(order):
+                raise RuntimeError(f"{node.name}: call sites visited {sorted(tops)}")
+            for r in range(len(order) + 1):
+                for T in itertools.combinations(order, r):
+                    if "v" in T and raw.kind not in SCORE_KINDS:
+                        # switch / mask / or_else / mix assess on maps that do contain v: their own assess
+                        # findings (values required for branches not taken / masked-off) belong to C02
+                        continue
+                    sub = {p_: asg[p_] for p_ in visited if p_[0] in T}
+                    ctx.ev((node.name, "assess", gfi.asg_key(sub)), nontrivial=True)
+                    complete = len(T) == len(order)
+                    cls = f"call_site:{raw.kind}"
+                    try:
+                        s, rv = gf.assess(make_chm(sub), jargs)
+                        if not complete:
+                            ctx.fail("static", "assess", cls, "no_MissingAddress", dict(program=node.name, given=sorted(T)))
+                        elif raw.kind in SCORE_KINDS and not close(float(s), R.score()):
+                            ctx.fail("static", "assess", cls, "score", dict(program=node.name, impl=float(s), ref=R.score()))
+                        ctx.outcome(("assess_ok", complete))
+                    except MissingAddress as e:
+                        ctx.outcome(("MissingAddress", complete))
+                        first_missing = [a for a in order if a not in T]
+                        if complete:
+                            ctx.fail("static", "assess", cls, "MissingAddress_on_complete_map", dict(program=node.name, msg=str(e)[:100]))
+                        elif first_missing[0] not in str(e):
+                            ctx.fail("static", "assess", cls, "MissingAddress_names_wrong_address", dict(program=node.name, given=sorted(T), msg=str(e)[:100]))
+                    except Exception as e:
+                        ctx.fail("static", "assess", cls, f"exception:{type(e).__name__}", dict(program=node.name, given=sorted(T), msg=str(e)[:200]))
+        ctx.sample(dict(program=node.name, call_site=raw.kind, assignments=len(enum)))
+
+    return run
+
+
 def cases(tier, seed):
+    for node, raw in call_site_programs():
+        yield Case(node.name, _run_call_site(node, raw, tier, seed), dict(program=node.name, call_site=raw.kind))
     for node, addrs, nested in programs(tier):
         yield Case(node.name, _run(node, addrs, nested, tier, seed), dict(program=node.name, addresses=[repr(a) for a in addrs]))
